@@ -259,6 +259,7 @@ int main(int argc, char* const* argv)
         if (!instance.configure_tx_txin()) return 1;
     }
 
+    instance.allow_disabled_opcodes = allow_disabled_opcodes;
     if (!instance.setup_environment(flags)) {
         fprintf(stderr, "failed to initialize script environment: %s\n", instance.error_string().c_str());
         return 1;
